@@ -368,8 +368,37 @@ def solve(ob, timeout_s=30, workdir=None, solvers=None, wait_all=False):
     return res
 
 
+def _has_quant(t):
+    return any(x.op in ("forall", "exists", "forall_range", "exists_range") for x in tm.subterms(t))
+
+
+def solve_with_relaxation(ob, timeout_s=30, workdir=None):
+    """portfolio; when undecided and some hypotheses are quantified, retry without them: `unsat` then still
+    discharges (fewer hypotheses), `sat` only yields a *candidate* model (status 'sat-relaxed') that counts as a
+    violation only if it replays on the real code"""
+    res = solve(ob, timeout_s=timeout_s, workdir=workdir)
+    if res["status"] != "unknown" or ob.expect != "valid":
+        return res
+    hy = [h for h in ob.hyps if not _has_quant(h)]
+    if len(hy) == len(ob.hyps) or _has_quant(ob.goal):
+        return res
+    o2 = Obligation(ob.name + "~relaxed", hy, ob.goal, kind=ob.kind, prop=ob.prop, decls=ob.decls, sorts=ob.sorts,
+                    defs=ob.defs, model_terms=ob.model_terms, meta=ob.meta, solvers=ob.solvers)
+    r2 = solve(o2, timeout_s=min(timeout_s, 30), workdir=workdir)
+    res["relaxed"] = dict(status=r2["status"], verdicts=r2["verdicts"], dropped=len(ob.hyps) - len(hy))
+    res["time"] += r2["time"]
+    if r2["status"] == "unsat":
+        res.update(status="unsat", by=r2["by"], ok=True)
+        res["runs"] = res["runs"] + r2["runs"]
+    elif r2["status"] == "sat":
+        res.update(status="sat-relaxed", model=r2.get("model"), by=r2.get("by"), ok=False)
+        res["runs"] = res["runs"] + r2["runs"]
+    ob.result = res
+    return res
+
+
 def solve_all(obs, timeout_s=30, workdir=None, jobs=None):
     jobs = jobs or max(2, (os.cpu_count() or 4) // 2)
     with ThreadPoolExecutor(max_workers=jobs) as ex:
-        list(ex.map(lambda ob: solve(ob, timeout_s=timeout_s, workdir=workdir), obs))
+        list(ex.map(lambda ob: solve_with_relaxation(ob, timeout_s=timeout_s, workdir=workdir), obs))
     return obs
